@@ -1,7 +1,7 @@
 (* C02 - received frames are reassembled into exactly the messages that were sent.  Statements fixed in Spec/RxSpec.v. *)
-From Coq Require Import ZArith List Bool.
+From Coq Require Import ZArith List Bool Lia.
 From N2kV Require Import Base.ListAux Model.CanId Model.Sched Model.PgnClass Model.NodeDefs Model.NodeRxDefs Spec.SendSpec Spec.RxSpec
-  Proofs.SendProofs Proofs.RxProofsA Proofs.RxProofsB Proofs.RxProofsC.
+  Proofs.SendProofs Proofs.RxProofsA Proofs.RxProofsB Proofs.RxProofsC Proofs.RxProofsD Proofs.RxProofsE Proofs.RxProofsF Proofs.RxProofsG.
 Import ListNotations.
 Local Open Scope Z_scope.
 
@@ -11,8 +11,46 @@ Theorem C02_rx_no_corruption : rx_no_corruption_stmt.  Proof. exact rx_no_corrup
 Print Assumptions C02_rx_no_corruption.
 Theorem C02_cold_node_clean : cold_node_clean_stmt.  Proof. exact cold_node_clean. Qed.
 Print Assumptions C02_cold_node_clean.
+(* a fast packet announcing more than 223 bytes is never delivered; nothing longer than 223 bytes is *)
+Theorem C02_overlong_never_delivered : overlong_never_delivered_stmt.  Proof. exact overlong_never_delivered. Qed.
+Print Assumptions C02_overlong_never_delivered.
+Theorem C02_delivered_at_most_223 : delivered_at_most_223_stmt.  Proof. exact delivered_at_most_223. Qed.
+Print Assumptions C02_delivered_at_most_223.
+Theorem C02_overlong_first_frame : overlong_first_frame_stmt.  Proof. exact overlong_first_frame. Qed.
+Print Assumptions C02_overlong_first_frame.
 Theorem C02_rx_loop_iter : rx_loop_iter_stmt.  Proof. exact rx_loop_iter. Qed.
 Print Assumptions C02_rx_loop_iter.
+Theorem C02_single_frame : single_frame_stmt.  Proof. exact single_frame. Qed.
+Print Assumptions C02_single_frame.
+Theorem C02_supersede : supersede_stmt.  Proof. exact supersede. Qed.
+Print Assumptions C02_supersede.
+Theorem C02_out_of_sequence_discards : out_of_sequence_discards_stmt.  Proof. exact out_of_sequence_discards. Qed.
+Print Assumptions C02_out_of_sequence_discards.
+(* completeness: first frame / in-sequence continuation / any other traffic / a whole run inside one ParseMessages loop *)
+Theorem C02_rx_complete_first : rx_complete_first_stmt.  Proof. exact rx_complete_first. Qed.
+Print Assumptions C02_rx_complete_first.
+Theorem C02_rx_complete_cont : rx_complete_cont_stmt.  Proof. exact rx_complete_cont. Qed.
+Print Assumptions C02_rx_complete_cont.
+Theorem C02_rx_complete_other : rx_complete_other_stmt.  Proof. exact rx_complete_other. Qed.
+Print Assumptions C02_rx_complete_other.
+Theorem C02_rx_complete_poll : rx_complete_poll_stmt.  Proof. exact rx_complete_poll. Qed.
+Print Assumptions C02_rx_complete_poll.
+Theorem C02_rx_table_kept : rx_table_kept_stmt.  Proof. exact rx_table_kept. Qed.
+Print Assumptions C02_rx_table_kept.
+Theorem C02_poll_is_loop : poll_is_loop_stmt.  Proof. exact poll_is_loop. Qed.
+Print Assumptions C02_poll_is_loop.
+(* completeness by counting (PGN, source, destination) keys against slots is false of the code: open finding 'complete-stale' *)
+Theorem C02_rx_complete_refuted : rx_complete_refuted_stmt.  Proof. exact rx_complete_refuted. Qed.
+Print Assumptions C02_rx_complete_refuted.
+Theorem C02_rx_complete_false : rx_complete_false_stmt.  Proof. exact rx_complete_false. Qed.
+Print Assumptions C02_rx_complete_false.
+Theorem C02_rx_complete_partial : rx_complete_partial_stmt.  Proof. exact rx_complete_partial. Qed.
+Print Assumptions C02_rx_complete_partial.
+(* runs of the arrival stream are sent messages, provided the 3-bit sequence id cannot alias *)
+Theorem C02_runs_are_sent : runs_are_sent_stmt.  Proof. exact runs_are_sent. Qed.
+Print Assumptions C02_runs_are_sent.
+Theorem C02_runs_are_sent_partial : runs_are_sent_partial_stmt.  Proof. exact runs_are_sent_partial. Qed.
+Print Assumptions C02_runs_are_sent_partial.
 
 (* non-vacuity: three senders (sources 30, 31, 32; PGNs 129029, 127489, 129540; 20 bytes = 3 frames each) interleaved over five slots, the
    last frame of sender 31 is lost: exactly the messages of 30 and 32 are handed over, and the hypotheses of rx_no_corruption hold *)
@@ -30,3 +68,65 @@ Proof.
   split; [split; [reflexivity | repeat constructor] |]. split; [intros r s; repeat split |]. split; vm_compute; reflexivity.
 Qed.
 Print Assumptions C02_nonvacuous.
+
+(* non-vacuity of the completeness theorem for one loop: sender 30's three frames interleaved with sender 31's first two *)
+Definition ex_a0 := mkf 234358046 [32; 20; 1; 2; 3; 4; 5; 6].
+Definition ex_a1 := mkf 234358046 [33; 7; 8; 9; 10; 11; 12; 13].
+Definition ex_a2 := mkf 234358046 [34; 14; 15; 16; 17; 18; 19; 20].
+Definition ex_b0 := mkf 233963807 [64; 20; 101; 102; 103; 104; 105; 106].
+Definition ex_b1 := mkf 233963807 [65; 107; 108; 109; 110; 111; 112; 113].
+Example C02_complete_nonvacuous :
+  In (run_msg ex_a0 [ex_a1; ex_a2]) (fp_dlv (snd (rx_loop gf_none 20%nat (with_rxq ex_node [ex_a0; ex_b0; ex_a1; ex_b1; ex_a2])))) /\
+  m_data (run_msg ex_a0 [ex_a1; ex_a2]) = [1; 2; 3; 4; 5; 6; 7; 8; 9; 10; 11; 12; 13; 14; 15; 16; 17; 18; 19; 20].
+Proof.
+  split; [|vm_compute; reflexivity].
+  apply (C02_rx_complete_poll gf_none (with_rxq ex_node [ex_a0; ex_b0; ex_a1; ex_b1; ex_a2]) ex_a0 [ex_a1; ex_a2] [ex_b0; ex_a1; ex_b1; ex_a2] 20%nat).
+  - intros r s; repeat split.
+  - repeat split; vm_compute; reflexivity.
+  - reflexivity.
+  - cbn [interleaved]. right. split; [intros (_ & A & _); vm_compute in A; discriminate|]. left. eexists. split; [reflexivity|].
+    cbn [interleaved]. right. split; [intros (_ & A & _); vm_compute in A; discriminate|]. left. eexists. split; [reflexivity|]. reflexivity.
+  - cbn [seq_ok]. repeat split; vm_compute; congruence.
+  - cbn. lia.
+  - vm_compute. reflexivity.
+  - intros cs' Hl E. cbn [length] in Hl. destruct cs' as [|x [|y [|z cs']]]; cbn [length] in Hl; try lia.
+    + vm_compute. reflexivity.
+    + cbn [length firstn] in E. injection E as ->. vm_compute. reflexivity.
+  - vm_compute. reflexivity.
+Qed.
+Print Assumptions C02_complete_nonvacuous.
+
+(* non-vacuity of runs_are_sent: the sender's second message (sequence id 2+1) arrives completely after the tail of its first was lost *)
+Example C02_sent_nonvacuous :
+  let payloads := [[9; 9; 9; 9; 9; 9; 9; 9; 9; 9]; [1; 2; 3; 4; 5; 6; 7; 8; 9; 10]] in
+  let id := to_can_id 3 129029 30 255 in
+  let fs := [mkf id [64; 10; 9; 9; 9; 9; 9; 9]; mkf id [96; 10; 1; 2; 3; 4; 5; 6]; mkf id [97; 7; 8; 9; 10; 255; 255; 255]] in
+  let m := {| m_pri := 3; m_pgn := 129029; m_src := 30; m_dst := 255; m_data := [1; 2; 3; 4; 5; 6; 7; 8; 9; 10]; m_tp := false |} in
+  fast_just fs m [1; 2]%nat /\ m_data m = nth 1 payloads [].
+Proof.
+  cbv zeta. split; [|reflexivity].
+  exists 1%nat, [2%nat], (mkf (to_can_id 3 129029 30 255) [96; 10; 1; 2; 3; 4; 5; 6]).
+  repeat split; try (vm_compute; reflexivity); try (vm_compute; lia); try (vm_compute; congruence).
+  eexists. split; [reflexivity|]. repeat split; try (vm_compute; reflexivity); try (vm_compute; congruence).
+Qed.
+Print Assumptions C02_sent_nonvacuous.
+
+(* the hypotheses of runs_are_sent are satisfiable: the run above is frames 0,1 of sent message number 1 (of two), sequence ids 2,3 *)
+Example C02_sent_applies :
+  let payloads := [[9; 9; 9; 9; 9; 9; 9; 9; 9; 9]; [1; 2; 3; 4; 5; 6; 7; 8; 9; 10]] in
+  let id := to_can_id 3 129029 30 255 in
+  let fs := [mkf id [64; 10; 9; 9; 9; 9; 9; 9]; mkf id [96; 10; 1; 2; 3; 4; 5; 6]; mkf id [97; 7; 8; 9; 10; 255; 255; 255]] in
+  forall m, fast_just fs m [1; 2]%nat -> m_data m = [1; 2; 3; 4; 5; 6; 7; 8; 9; 10] /\ m_src m = 30.
+Proof.
+  cbv zeta. intros m FJ.
+  match type of FJ with fast_just ?fs _ _ => pose proof (C02_runs_are_sent 3 129029 30 255 2 [[9; 9; 9; 9; 9; 9; 9; 9; 9; 9]; [1; 2; 3; 4; 5; 6; 7; 8; 9; 10]] fs m [1; 2]%nat [1; 1]%nat [0; 1]%nat) as R end.
+  cbv zeta in R. destruct R as (_ & D & _ & _ & S & _); auto.
+  - unfold id_args_ok. lia.
+  - intros X. vm_compute in X. discriminate.
+  - lia.
+  - repeat constructor; cbn; lia.
+  - intros k Hk. cbn [length] in Hk. destruct k as [|[|k]]; [split; [cbn; lia | vm_compute; reflexivity] .. | lia].
+  - intros k Hk. cbn [length] in Hk. destruct k as [|k]; [|lia]. right. cbn. lia.
+  - cbn. lia.
+Qed.
+Print Assumptions C02_sent_applies.
